@@ -1,5 +1,72 @@
+// Auxiliary correspondence commands for the small hand-written models (C06 quorum, C18 timer, C19 reference code).
 package main
 
-import "bufio"
+import (
+	"bufio"
+	"fmt"
+	"io"
+	"math/rand"
+)
 
-func auxMain(w *bufio.Writer, cmd string, a []string) bool { return false }
+func auxMain(w *bufio.Writer, cmd string, a []string) bool {
+	switch cmd {
+	case "quorum":
+		quorumCmd(w, atoi64(a[0]), a[1])
+	case "timer":
+		timerCmd(w, atoi64(a[0]), atoi(a[1]))
+	case "ref":
+		refCmd(w, atoi64(a[0]), atoi(a[1]))
+	default:
+		return false
+	}
+	return true
+}
+
+// quorumCmd builds real contexts through Start with N validators on a ledger of height h-1 and prints what the
+// library itself computes: "Q <N> <BlockIndex> <F> <M> <primary(view 0)> ... <primary(view 255)>".
+func quorumCmd(w *bufio.Writer, seed int64, tier string) {
+	rng := rand.New(rand.NewSource(seed))
+	var ns []int
+	limit := 256
+	if tier == "thorough" {
+		limit = 4096
+	}
+	for n := 1; n <= limit; n++ {
+		ns = append(ns, n)
+	}
+	extra := 60
+	if tier == "thorough" {
+		extra = 3000
+	}
+	for i := 0; i < extra; i++ {
+		ns = append(ns, 1+rng.Intn(65535))
+	}
+	ns = append(ns, 65535, 65534, 32768)
+	sink := bufio.NewWriter(io.Discard)
+	for _, N := range ns {
+		hs := []uint32{0, 1, 2, uint32(N - 1), uint32(N), uint32(N + 1), 1<<31 - 2, 1<<31 - 1, 1 << 31, 1<<32 - 3, 1<<32 - 2, 1<<32 - 1, rng.Uint32(), rng.Uint32()}
+		if N > 600 && tier != "thorough" {
+			hs = []uint32{0, 1<<32 - 1, rng.Uint32()}
+		}
+		n := newNode(0, mkVals(N), -1, sink)
+		n.muted = 1 // nothing is recorded: only the library's own arithmetic is read
+		for _, h := range hs {
+			n.height = h - 1 // CurrentHeight(); BlockIndex = CurrentHeight()+1 (uint32 arithmetic)
+			if !n.started {
+				n.d.Start(0)
+				n.started = true
+			} else {
+				n.d.Reset(0)
+			}
+			d := n.d
+			fmt.Fprintf(w, "Q %d %d %d %d %d", d.N(), d.BlockIndex, d.F(), d.M(), d.PrimaryIndex)
+			for v := 0; v < 256; v++ {
+				fmt.Fprintf(w, " %d", d.GetPrimaryIndex(byte(v)))
+			}
+			fmt.Fprintln(w)
+		}
+	}
+}
+
+func timerCmd(w *bufio.Writer, seed int64, n int) {}
+func refCmd(w *bufio.Writer, seed int64, n int)   {}
